@@ -3,14 +3,19 @@ import Rivaas.Basic
 C10 — model of `middleware/timeout/timeout.go` (`timeout.New`) as a **two-thread small-step system**
 with the recovery middleware in front of it (chain `[recovery, timeout, handler]`).
 
-* thread `R` — the request goroutine inside the middleware: spawn the handler goroutine, `select`
-  on `done` / `ctx.Done()`; on `done` re-`panic` what `panicChan` holds; on `ctx.Done()` with
-  `DeadlineExceeded` set `timedOut`, call the timeout handler (`c.JSON(408, …)`), then `<-done` and
-  re-`panic`; on `ctx.Done()` with `Canceled` (the parent context was cancelled) fall through and
-  **return without waiting** (`timedOut` is false).
+* thread `R` — the request goroutine inside the middleware: install the guard `timeoutWriter` as
+  `c.Response`, spawn the handler goroutine, `select` on `done` / `ctx.Done()`; on `ctx.Done()` with
+  `DeadlineExceeded`: `timedOut = tw.timeout()` — true iff the chain has not started the response —
+  and only then the timeout handler runs (on a context of its own that writes to the real writer:
+  `c.JSON(408, …)`); on `ctx.Done()` with `Canceled` nothing; **in both cases `<-done`**. After the
+  select: `c.Response` is restored unless `timedOut`, then whatever `panicChan` holds is re-`panic`ked.
 * thread `H` — the handler goroutine: `defer { if r := recover(); r != nil { panicChan <- r }; close(done) }`
-  around `c.Next()`, i.e. the timed handler's program.
-* both share the response writer and the context.
+  around `c.Next()`, i.e. the timed handler's program. Its writes go through the guard: they start
+  the response (`started`) unless `timedOut`, in which case they are dropped.
+* after a timeout response the guard stays installed: recovery's 500 body for a re-raised panic is dropped.
+
+This is the code after the `fix:` commits for K10b and K10a/K10d; the as-shipped middleware is
+`Model/TimeoutAsIs.lean`.
 
 A schedule is a list of tokens: which thread moves (for `R` at its `select`: which ready branch Go
 picks), or an environment event (the deadline timer fires, the parent context is cancelled). A
@@ -99,7 +104,10 @@ structure St where
   panicChan : Option Nat := none
   ctx : Ctx := .live
   rpc : RPc := .select
+  /-- `timedOut` (= `tw.timedOut`): the response belongs to the timeout handler -/
   timedOut : Bool := false
+  /-- `tw.started`: the handler chain has started the response -/
+  started : Bool := false
   /-- the timeout handler has been entered (what `awaitE` waits for) -/
   tEntered : Bool := false
   /-- the timeout handler has written (what `awaitT` waits for) -/
@@ -117,20 +125,23 @@ structure St where
 def St.write (s : St) (c : Chunk) : St :=
   { s with status := s.status.or (some c), body := s.body ++ [c] }
 
-/-- R leaves the middleware after `<-done`: re-panic what the goroutine caught. Recovery (position 0,
-    same goroutine) catches it: `c.Abort()`, `c.JSON(500, …)`, return. -/
+/-- R leaves the middleware after `<-done`: `c.Response` is the real writer again unless the request
+    timed out; re-panic what the goroutine caught. Recovery (position 0, same goroutine) catches it:
+    `c.Abort()`, `c.JSON(500, …)` — dropped by the guard after a timeout response —, return. -/
 def finishR (s : St) : St :=
   match s.panicChan with
-  | some v => ({ s with recovered := some v, rpc := .returned }).write .rec500
-  | none => { s with rpc := .returned }
+  | some v =>
+    if s.timedOut then { s with recovered := some v, rpc := .returned, releasedEarly := !s.hDone }
+    else ({ s with recovered := some v, rpc := .returned, releasedEarly := !s.hDone }).write .rec500
+  | none => { s with rpc := .returned, releasedEarly := !s.hDone }
 
 def stepH (s : St) : St :=
   if s.hDone then s else
   match s.hprog with
   | [] => { s with hDone := true, hGo := true }
   | .write :: r =>
-    -- after `ServeHTTP` returned the context was reset (`c.Response == nil`): `c.JSON` gives up
-    if s.rpc = .returned then { s with hprog := r } else ({ s with hprog := r }).write .h
+    -- `timeoutWriter.Write`: dropped after the timeout decision, otherwise the chain owns the response
+    if s.timedOut then { s with hprog := r } else ({ s with hprog := r, started := true }).write .h
   | .fireDl :: r => { s with hprog := r, ctx := if s.ctx = .live then .deadline else s.ctx }
   | .firePc :: r => { s with hprog := r, ctx := if s.ctx = .live then .cancelled else s.ctx }
   | .awaitCtx :: r => if s.ctx = .live then s else { s with hprog := r }
@@ -151,9 +162,12 @@ def stepR (waitH : Bool) (preferDone : Bool) (s : St) : St :=
     if s.hDone && (preferDone || s.ctx == .live) then finishR s
     -- nothing is ready: blocked
     else if s.ctx = .live then s
-    -- `ctx.Done()`: errors.Is(ctx.Err(), context.DeadlineExceeded)?
-    else if s.ctx = .deadline then { s with timedOut := true, tEntered := true, rpc := .thandler }
-    else { s with rpc := .returned, releasedEarly := !s.hDone }
+    -- `ctx.Done()`: errors.Is(ctx.Err(), context.DeadlineExceeded)? then `timedOut = tw.timeout()`
+    else if s.ctx = .deadline then
+      if s.started then { s with rpc := .waitDone }
+      else { s with timedOut := true, tEntered := true, rpc := .thandler }
+    -- the parent context was cancelled: nothing to send, `<-done`
+    else { s with rpc := .waitDone }
   | .thandler =>
     if waitH && !s.hGo then s
     else ({ s with tWritten := true, rpc := .waitDone }).write .t408
